@@ -620,13 +620,21 @@ inline void random_search(const SubCheck& sc, int cases) {
   rc::detail::TestMetadata md;
   md.id = sc.name;
   md.description = sc.name;
+  // Shrinking re-executes the oracle for every candidate; bound it (300 failing executions) so that an expensive
+  // oracle cannot spend the whole stage budget minimising one failure: afterwards every candidate "passes" and
+  // rapidcheck stops at the smallest failing case found so far, which exec() has already recorded.
+  uint64_t failing_execs = 0;
   auto result = rc::detail::checkTestable(
-      [&sc] {
+      [&sc, &failing_execs] {
+        if (failing_execs >= 300) return;
         ctx().journal("gen=" + sc.name + "\n");
         Case c = sc.gen();
         c.check = sc.name;
         bool ok = exec(sc, c);
-        if (!ok) RC_FAIL("oracle failure (see shard results)");
+        if (!ok) {
+          failing_execs++;
+          RC_FAIL("oracle failure (see shard results)");
+        }
       },
       md, params);
   if (!result.template is<rc::detail::SuccessResult>() && !result.template is<rc::detail::FailureResult>()) {
